@@ -562,7 +562,11 @@ def convex_polygon_cases(ctx, n_perm_sets, n_random, n_interior, n_sphero):
         yield case
     for _ in range(n_interior):
         p2, info = gen.c15_convex_polygon(rng, n=int(rng.integers(3, 30)))
-        x, depth = gen.c15_interior_point2(rng, p2)
+        try:
+            x, depth = gen.c15_interior_point2(rng, p2)
+        except RuntimeError:      # sliver: no point deeper than the margin
+            ctx.count("dropped:no-deep-interior-point")
+            continue
         q2 = np.vstack([p2, x])
         perm = rng.permutation(len(q2)).tolist()
         v, e = embed(q2)
@@ -576,7 +580,11 @@ def convex_polygon_cases(ctx, n_perm_sets, n_random, n_interior, n_sphero):
                   "nan": "nan"}[rk]
         bad = rng.random() < 0.35
         if bad:
-            x, _ = gen.c15_interior_point2(rng, p2)
+            try:
+                x, _ = gen.c15_interior_point2(rng, p2)
+            except RuntimeError:
+                ctx.count("dropped:no-deep-interior-point")
+                continue
             p2 = np.vstack([p2, x])
         perm = rng.permutation(len(p2)).tolist()
         v, e = embed(p2)
